@@ -18,6 +18,7 @@ import re
 from typing import Any, Callable, Dict, List, Optional, Tuple
 
 ROOT = Path(__file__).resolve().parent.parent
+THOROUGH_SCALE = float(os.environ.get("VERIF_THOROUGH_SCALE", "0.4"))
 REPO = Path(os.environ.get("VERIF_REPO", "/repo"))
 KNOWN_FILE = ROOT / "known_findings.json"
 MAX_SAMPLES = 10
@@ -335,6 +336,10 @@ def drive(run: Run, test_fn: Callable[..., None], strategy_args: Dict[str, Any],
           reruns: int = 4, **setkw: Any) -> None:
     """Run a Hypothesis campaign in chunks of at most CHUNK examples (Hypothesis keeps a tree of everything it generated in one
     run; chunking bounds its memory and makes the cost linear). Each chunk has its own derived seed."""
+    if run.tier == "thorough":
+        # the per-campaign sizes written in the checks were chosen before the campaigns multiplied; the whole thorough tier is scaled to stay near
+        # ten minutes per property on 16 cores (VERIF_THOROUGH_SCALE=1 runs the sizes as written)
+        max_examples = max(1, int(max_examples * THOROUGH_SCALE))
     done = 0
     c = 0
     while done < max_examples:
